@@ -667,7 +667,13 @@ class Exec:
         if isinstance(e, ast.BinOp):
             l, r = self.eval(e.left), self.eval(e.right)
             if isinstance(e.op, (ast.Add, ast.Mult, ast.BitOr, ast.Sub, ast.BitAnd)) and (l or r):
-                return self.fresh(e, self.deepen(l, "*") | self.deepen(r, "*"))
+                out = self.fresh(e, self.deepen(l, "*") | self.deepen(r, "*"))
+                if isinstance(e.op, ast.Add) and l and not isinstance(e.left, (ast.List, ast.Tuple, ast.Constant, ast.JoinedStr)) and not isinstance(e.right, (ast.List, ast.Tuple, ast.Constant, ast.JoinedStr)):
+                    # the operands may be repository objects defining __add__
+                    for c in self.an.repo.classes.values():
+                        if "__add__" in c.methods and c.methods["__add__"].qualname.startswith("qlasskit.qcircuit"):
+                            out = out | self.apply_summary(c.methods["__add__"], [l, r], {}, e)
+                return out
             return EMPTY
         if isinstance(e, ast.BoolOp):
             v = set()
